@@ -13,6 +13,16 @@ typedef IR2C_UBV(IR2C_SCALE * 4 + 1) ugz_t;
 #define GZ_MAX ((gz2_t)(((gz2_t)1 << (IR2C_SCALE * 4)) - 1))
 #define GZ_W32 IR2C_SCALE
 #define GZ_W64 (IR2C_SCALE * 2)
+#elif defined(GMP_MODEL_BITS)
+/* full-width code on operands that the harness bounds to a few bits: a narrow exact model keeps the oracle cheap;
+ * every value is still range-checked ("outside GMP-model range") */
+typedef IR2C_SBV(GMP_MODEL_BITS) gz_t;
+typedef IR2C_SBV(2 * GMP_MODEL_BITS + 2) gz2_t;
+typedef IR2C_UBV(GMP_MODEL_BITS) ugz_t;
+#define GZ_MAX ((gz2_t)(((gz2_t)1 << (GMP_MODEL_BITS - 1)) - 1))
+#define GZ_W32 32
+#define GZ_W64 64
+#define GZ_NARROW 1
 #else
 typedef __int128 gz_t;
 typedef __int128 gz2_t;            /* no wider native type: products are range-checked before multiplying */
@@ -40,7 +50,7 @@ static void gz_put(mpz_m *z, gz2_t v) {
   gmp_val[gz_id(z)] = (gz_t)v;
   z->f1 = (uint32_t)(v < 0 ? -1 : (v > 0 ? 1 : 0));
 }
-#ifndef IR2C_SCALE
+#if !defined(IR2C_SCALE) && !defined(GZ_NARROW)
 static int gz_mul_fits(gz_t a, gz_t b) {
   /* |a|,|b| < 2^63 guarantees |a*b| < 2^126 */
   gz_t lim = ((gz_t)1) << 63;
@@ -70,6 +80,11 @@ void __gmpz_init_set(mpz_m *r, mpz_m *a) { __gmpz_init(r); gz_put(r, gz_get(a));
 static gz2_t gz_sx64(uint64_t v) {
 #ifdef IR2C_SCALE
   return (gz2_t)(IR2C_SBV(GZ_W64))(IR2C_UBV(GZ_W64))v;
+#elif defined(GZ_NARROW)
+  __int128 w_ = (int64_t)v;
+  __CPROVER_assert(w_ <= (__int128)GZ_MAX && w_ >= -(__int128)GZ_MAX, "outside GMP-model range (narrow model)");
+  __CPROVER_assume(w_ <= (__int128)GZ_MAX && w_ >= -(__int128)GZ_MAX);
+  return (gz2_t)w_;
 #else
   return (gz2_t)(int64_t)v;
 #endif
@@ -77,6 +92,11 @@ static gz2_t gz_sx64(uint64_t v) {
 static gz2_t gz_zx64(uint64_t v) {
 #ifdef IR2C_SCALE
   return (gz2_t)(IR2C_UBV(GZ_W64))v;
+#elif defined(GZ_NARROW)
+  unsigned __int128 u_ = v;
+  __CPROVER_assert(u_ <= (unsigned __int128)GZ_MAX, "outside GMP-model range (narrow model)");
+  __CPROVER_assume(u_ <= (unsigned __int128)GZ_MAX);
+  return (gz2_t)u_;
 #else
   return (gz2_t)(unsigned __int128)v;
 #endif
@@ -93,10 +113,17 @@ void __gmpz_neg(mpz_m *r, mpz_m *a) { gz_put(r, -(gz2_t)gz_get(a)); }
 void __gmpz_abs(mpz_m *r, mpz_m *a) { gz_t v = gz_get(a); gz_put(r, v < 0 ? -(gz2_t)v : (gz2_t)v); }
 
 #define GZ_POW(w) (((gz2_t)1) << (w))
+#ifdef GZ_NARROW   /* every model value has fewer than 31 bits: it fits every machine type of its sign */
+uint32_t __gmpz_fits_sint_p(mpz_m *z) { (void)gz_get(z); return 1; }
+uint32_t __gmpz_fits_uint_p(mpz_m *z) { return gz_get(z) >= 0 ? 1 : 0; }
+uint32_t __gmpz_fits_slong_p(mpz_m *z) { (void)gz_get(z); return 1; }
+uint32_t __gmpz_fits_ulong_p(mpz_m *z) { return gz_get(z) >= 0 ? 1 : 0; }
+#else
 uint32_t __gmpz_fits_sint_p(mpz_m *z) { gz_t v = gz_get(z); return (v >= -GZ_POW(GZ_W32 - 1) && v < GZ_POW(GZ_W32 - 1)) ? 1 : 0; }
 uint32_t __gmpz_fits_uint_p(mpz_m *z) { gz_t v = gz_get(z); return (v >= 0 && v < GZ_POW(GZ_W32)) ? 1 : 0; }
 uint32_t __gmpz_fits_slong_p(mpz_m *z) { gz_t v = gz_get(z); return (v >= -GZ_POW(GZ_W64 - 1) && v < GZ_POW(GZ_W64 - 1)) ? 1 : 0; }
 uint32_t __gmpz_fits_ulong_p(mpz_m *z) { gz_t v = gz_get(z); return (v >= 0 && v < GZ_POW(GZ_W64)) ? 1 : 0; }
+#endif
 /* mpz_get_si / mpz_get_ui: low bits with the sign of the value (GMP semantics) */
 uint64_t __gmpz_get_ui(mpz_m *z) {
   gz_t v = gz_get(z); ugz_t a = (ugz_t)(v < 0 ? -v : v);
@@ -296,10 +323,14 @@ double __gmpq_get_d(mpq_m *q) {
 #ifdef IR2C_SCALE
   return (double)(int64_t)n;
 #else
+#ifdef __CPROVER__
   __CPROVER_rounding_mode = 3; /* toward zero, as GMP truncates */
   double r = (double)n;
   __CPROVER_rounding_mode = 0;
   return r;
+#else
+  return (double)(long long)n;   /* executable twin: values beyond 2^53 are not replayed through this path */
+#endif
 #endif
 }
 
